@@ -36,6 +36,10 @@ type MassDBV1 struct {
 	plotting   int32 // atomic
 	stopPlotCh chan struct{}
 	wg         sync.WaitGroup
+	// stopMu guards stopPlotCh and stopSignaled: StopPlot may be called by several
+	// goroutines (keeper shutdown monitor, StopWS, Close) for the same plot
+	stopMu       sync.Mutex
+	stopSignaled bool
 }
 
 func (mdb *MassDBV1) Type() string {
@@ -69,7 +73,10 @@ func (mdb *MassDBV1) Plot() chan error {
 		return result
 	}
 
+	mdb.stopMu.Lock()
 	mdb.stopPlotCh = make(chan struct{})
+	mdb.stopSignaled = false
+	mdb.stopMu.Unlock()
 	mdb.wg.Add(1)
 	go mdb.executePlot(result)
 
@@ -86,7 +93,12 @@ func (mdb *MassDBV1) StopPlot() chan error {
 	}
 
 	go func() {
-		close(mdb.stopPlotCh)
+		mdb.stopMu.Lock()
+		if !mdb.stopSignaled && mdb.stopPlotCh != nil {
+			close(mdb.stopPlotCh)
+			mdb.stopSignaled = true
+		}
+		mdb.stopMu.Unlock()
 		mdb.wg.Wait()
 		result <- nil
 	}()
